@@ -66,10 +66,10 @@ def gen_specs(ctx):
         out.append(sh)
     n = ctx.n(300, 2500)
     for _ in range(n):
-        s = g.top("T", getset_dirs=True, generic=0.08, maxfields=4, generic_embed=0.2, selfembed=0.05, types_extra=newgen.EXTRA_TYPES)
+        s = g.top("T", getset_dirs=True, generic=0.08, maxfields=4, generic_embed=0.2, selfembed=0.05, types_extra=newgen.EXTRA_TYPES, crosspkg=0.1)
         s["typedoc"] = ctx.rng.choice(TYPEDOCS)
         for m in s["members"]:
-            if m["k"] == "e" and ctx.rng.random() < 0.45 and not s["tparams"]:
+            if m["k"] == "e" and m.get("pkg") != "sub" and ctx.rng.random() < 0.45 and not s["tparams"]:
                 m["shoot"] = True
                 m["decl"]["typedoc"] = ctx.rng.choice(TYPEDOCS)
                 # directives inside the embedded type are its own (top-level for ITS generation)
@@ -118,9 +118,34 @@ def run(ctx, obl):
         else:
             cdecls, cnames, cafter = newgen.companion(ctx.rng, s, cid, share_shoot=True) if ctx.rng.random() < 0.3 else ([], [], [])
         res.hist("multi_type", "companion" if cnames else "companion-sharing-the-embedded-shoot-type" if cafter else "no")
-        args = ["new", "-getset", "-type=" + ",".join(cnames + shoots + cafter + [s["name"]])]
-        pc = {"id": cid, "files": {"t.go": newgen.render_file("cs", cdecls + [s])}, "runs": [{"args": args}] * (2 if ctx.rng.random() < 0.12 else 1), "oracle": {},
-              "spec": s, "sexp": gs_sexp(cid, s, facts[i]), "cmd": "shoot " + " ".join(args),
+        # a LOCAL shoot type named like a struct embedded from another package (sub.RemoteN next to a local RemoteN): its
+        # accessor interfaces are not those of the embedded type and must not be embedded
+        homonyms = []
+        for m in s["members"]:
+            if m["k"] == "e" and m.get("pkg") == "sub" and ctx.rng.random() < 0.6:
+                homonyms.append({"name": m["decl"]["name"], "tparams": [], "typedoc": None, "members": [
+                    {"k": "f", "name": "hq" + cid, "type": "int", "new": False, "def": None, "tagskip": False},
+                    {"k": "f", "name": "hr" + cid, "type": "string", "new": False, "def": None, "tagskip": False}]})
+        hnames = [h["name"] for h in homonyms]
+        args = ["new", "-getset", "-type=" + ",".join(hnames + cnames + shoots + cafter + [s["name"]])]
+        files = newgen.case_files("cs", homonyms + cdecls + [s], cid)
+        runs = [{"args": args}] * (2 if ctx.rng.random() < 0.12 else 1)
+        # history with a SOURCE EDIT (15% of the cases with an embedded shoot type that carries a type-level directive): the first
+        # run sees the embedded type WITHOUT the directive, then the directive is added by hand and the same command runs again
+        # over the package that holds the first output; the expectation is that of the edited sources
+        edited = [m for m in s["members"] if m["k"] == "e" and m.get("shoot") and m["decl"].get("typedoc")]
+        if edited and not homonyms and ctx.rng.random() < 0.3:
+            import copy
+            s0 = copy.deepcopy(s)
+            for m in s0["members"]:
+                if m["k"] == "e" and m.get("shoot"):
+                    m["decl"]["typedoc"] = None
+            files0 = newgen.case_files("cs", cdecls + [s0], cid)
+            runs = [{"args": args}, {"write": {"t.go": files["t.go"]}}, {"args": args}]
+            files = dict(files, **{"t.go": files0["t.go"]})
+            res.hist("history", "source-edit")
+        pc = {"id": cid, "files": files, "runs": runs, "oracle": {},
+              "spec": s, "sexp": gs_sexp(cid, s, facts[i]), "cmd": " ; ".join("shoot " + " ".join(r["args"]) if "args" in r else "<edit t.go>" for r in runs),
               "key": dump([typedoc_sexp(s.get("typedoc")), newgen.members_sexp(s), sorted(facts[i])])}
         b.add(pc)
         cases.append(pc)
@@ -153,7 +178,7 @@ def run(ctx, obl):
         r = out[c["id"]]
         r1 = out1[c["id"]]
         im = dict(r["obs"])
-        im["exit"] = str(max(abs(x["rc"]) for x in r1["runs"]))
+        im["exit"] = str(max([abs(x["rc"]) for x in r1["runs"]] or [0]))
         im["compile"] = "ok" if r["compile"] == "ok" else "error"
         if r["compile"] != "ok":
             c.setdefault("detail", {})["compile"] = r["compile"]
